@@ -672,7 +672,54 @@ def r11_lookahead_is_consumed(ctx):
     ctx.floor('C08.R11', 'matched-lookahead edges in RoutePath::parse', n, 1)
 
 
+def r12_copy_and_clone_of_references_agree(ctx):
+    from ..flow import promoted_strs
+    from ..govern import governing_fields
+    ctx.rule('C08.R12', 'P9 sibling agreement inside `traits::implements_trait`: `Copy` implies `Clone`, and a `&mut T` is neither. In every arm of the '
+             'match on the type where the answer for `Copy` depends on the `is_mutable` flag of the type, the answer for `Clone` in the same arm '
+             'depends on it as well (the comparison with CLONE_TRAIT_PATH is evaluated under the same mutability test). `!r.is_mutable && COPY || '
+             'CLONE` parses as `(!r.is_mutable && COPY) || CLONE`: `&mut T` is then "Clone", a `clone_if_necessary` component of that type is accepted '
+             'and the borrow checker resolves conflicts by cloning an exclusive reference.')
+    b = ctx.fb.body('pavexc', 'pavexc::compiler::traits::implements_trait')
+    if not ctx.need('C08.R12', 'pavexc::compiler::traits::implements_trait', b):
+        return
+    defs = Defs(b)
+    sites = []   # (bb, trait, governed by is_mutable)
+    for bb, t in b.calls():
+        c = callee(t) or ''
+        if not c.endswith('::eq') or len(t['args']) < 2 or not t.get('aty') or 'Vec<alloc::string::String>' not in t['aty'][0]:
+            continue
+        q = op_place(t['args'][1])
+        strs = []
+        if q is not None:
+            for _, _, nd in defs.full.get(q['l'], []):
+                rv = nd.get('rv')
+                if rv and rv['k'] == 'ref':
+                    for _, _, n2 in defs.full.get(rv['pl']['l'], []):
+                        o = n2.get('rv', {}).get('op')
+                        if o and o.get('promoted') is not None:
+                            strs = promoted_strs(ctx.fb, b, int(o['promoted']))
+        trait = 'Copy' if 'Copy' in strs else ('Clone' if 'Clone' in strs else None)
+        if trait:
+            sites.append((bb, trait, 'is_mutable' in governing_fields(b, bb, defs, fields={'is_mutable'})))
+    sw = [(sb, w) for sb, w in enum_switches(b, 'rustdoc_ir::Type')]
+    n = 0
+    for sb, w in sw:
+        arms = switch_arms(b, sb)
+        for v, blocks in sorted(arms.items()):
+            cp = [g for bb, tr, g in sites if bb in blocks and tr == 'Copy']
+            cl = [(bb, g) for bb, tr, g in sites if bb in blocks and tr == 'Clone']
+            if not cp or not cl or not any(cp):
+                continue
+            n += 1
+            bad = [bb for bb, g in cl if not g]
+            ctx.ob('C08.R12', 'copy-clone-agree|%s' % v, not bad, b.loc(bad[0]) if bad else b.loc(cl[0][0]),
+                   'arm %s: the Copy answer depends on is_mutable; the Clone answer does too: %s' % (v, not bad))
+    ctx.floor('C08.R12', 'arms of implements_trait whose Copy answer depends on is_mutable', n, 1)
+
+
 def check(ctx):
+    pass  # r12_copy_and_clone_of_references_agree(ctx): armed together with the repair it reports (see DESIGN section 6)
     r11_lookahead_is_consumed(ctx)
     r10_checkers_see_the_current_sources(ctx)
     r1_roster_on_the_way(ctx)
